@@ -27,7 +27,7 @@ import (
 var pkgMap = map[string]map[string]string{
 	"sync": {
 		"Mutex": "vrt.Mutex", "RWMutex": "vrt.RWMutex", "WaitGroup": "vrt.WaitGroup", "Once": "vrt.Once",
-		"Cond": "vrt.Cond", "NewCond": "vrt.NewCond",
+		"Cond": "vrt.Cond", "NewCond": "vrt.NewCond", "Pool": "vrt.Pool",
 	},
 	"time": {
 		"NewTicker": "vrt.NewTicker", "NewTimer": "vrt.NewTimer", "After": "vrt.After", "AfterFunc": "vrt.AfterFunc",
